@@ -414,6 +414,12 @@ func forkAndExecInChild(r *Runner, argv0 *byte, argv, env []*byte, workdir, host
 				}
 			}
 		}
+		// until the tracer has set PTRACE_O_EXITKILL nothing ties this process to it: ask for
+		// SIGKILL when the tracer (the thread that forked, locked for the whole trace) dies
+		_, _, err1 = syscall.RawSyscall(syscall.SYS_PRCTL, syscall.PR_SET_PDEATHSIG, uintptr(syscall.SIGKILL), 0)
+		if err1 != 0 {
+			childExitError(pipe, LocPtraceMe, err1)
+		}
 		_, _, err1 = syscall.RawSyscall(syscall.SYS_PTRACE, uintptr(syscall.PTRACE_TRACEME), 0, 0)
 		if err1 != 0 {
 			childExitError(pipe, LocPtraceMe, err1)
@@ -491,6 +497,12 @@ func forkAndExecInChild(r *Runner, argv0 *byte, argv, env []*byte, workdir, host
 
 	// Enable ptrace if no seccomp is needed
 	if r.Ptrace && r.Seccomp == nil {
+		// until the tracer has set PTRACE_O_EXITKILL nothing ties this process to it: ask for
+		// SIGKILL when the tracer (the thread that forked, locked for the whole trace) dies
+		_, _, err1 = syscall.RawSyscall(syscall.SYS_PRCTL, syscall.PR_SET_PDEATHSIG, uintptr(syscall.SIGKILL), 0)
+		if err1 != 0 {
+			childExitError(pipe, LocPtraceMe, err1)
+		}
 		_, _, err1 = syscall.RawSyscall(syscall.SYS_PTRACE, uintptr(syscall.PTRACE_TRACEME), 0, 0)
 		if err1 != 0 {
 			childExitError(pipe, LocPtraceMe, err1)
